@@ -117,6 +117,7 @@ def gen_case(rng, tier):
         case["thr"] = rng.randint(-3, 6)
         case["axis1d"] = rng.random() < 0.4
         case["mask_chunks_seed"] = rng.randrange(10**6)
+        case["mask_rechunked"] = rng.random() < 0.5  # a full-shape dask mask whose chunking differs from x's
     elif kind == "daskint":
         case["zero_d"] = rng.random() < 0.3
         case["axis"] = rng.randrange(len(shape)) if shape else 0
@@ -126,6 +127,11 @@ def gen_case(rng, tier):
         if case["ind"] and rng.random() < 0.1:
             case["ind"][rng.randrange(len(case["ind"]))] = rng.choice([n, n + 2, -n - 1])
         case["ind_chunks"] = list(rand_composition(rng, len(case["ind"]))) if case["ind"] else [0]
+        case["second"] = None
+        if case["zero_d"] and len(shape) >= 2 and case["axis"] + 1 < len(shape) and shape[case["axis"] + 1] > 0 and rng.random() < 0.6:
+            # a second dask integer indexer (0-d or 1-d) in the same index tuple
+            n2 = shape[case["axis"] + 1]
+            case["second"] = {"zero_d": rng.random() < 0.5, "ind": [rng.randrange(-n2, n2) for _ in range(rng.randint(1, 4))]}
     elif kind == "vindex":
         nd = len(shape)
         idx = []
@@ -223,6 +229,10 @@ def evaluate(case, a, chunks):
             m_np = (np.arange(a.shape[0]) % 3) != case["thr"] % 3
             m = da.from_array(m_np, chunks=(rand_composition(mrng, a.shape[0]),))
             e, r = both(lambda: a[m_np], lambda: x[m])
+        elif case.get("mask_rechunked") and a.ndim >= 1:
+            m_np = a > case["thr"]
+            m = da.from_array(m_np, chunks=tuple(rand_composition(mrng, n) for n in a.shape))
+            e, r = both(lambda: a[m_np], lambda: x[m])
         else:
             e, r = both(lambda: a[a > case["thr"]], lambda: x[x > case["thr"]])
     elif kind == "daskint":
@@ -232,7 +242,17 @@ def evaluate(case, a, chunks):
             k = (case["ind"][0] if case["ind"] else 0)
             ki = da.from_array(np.array(k), chunks=())
             pre = (slice(None),) * ax
-            e, r = both(lambda: a[pre + (k,)], lambda: x[pre + (ki,)])
+            sec = case.get("second")
+            if sec:
+                if sec["zero_d"]:
+                    k2 = sec["ind"][0]
+                    k2d = da.from_array(np.array(k2), chunks=())
+                else:
+                    k2 = np.array(sec["ind"], dtype=np.int64)
+                    k2d = da.from_array(k2, chunks=max(1, len(sec["ind"]) // 2))
+                e, r = both(lambda: a[pre + (k, k2)], lambda: x[pre + (ki, k2d)])
+            else:
+                e, r = both(lambda: a[pre + (k,)], lambda: x[pre + (ki,)])
         else:
             ind_np = np.array(case["ind"], dtype=np.int64)
             ind = da.from_array(ind_np, chunks=(tuple(case["ind_chunks"]),))
